@@ -27,6 +27,7 @@ RULE = (
 ASSUMPTIONS = [
     "whole-column statistics transforms (scale, center) are not applied to null columns (their contract, not this property's)",
     "hashed() stringifies None, so it never has nulls; it is used on a null-free column only",
+    "an evaluated factor value that is NaN (I(x * y) with inf * 0) is a missing value; +-inf itself is not",
     "values compared with rtol/atol 1e-9, NaN == NaN under ignore",
 ]
 
@@ -43,6 +44,12 @@ def null_rows(fc, fr, extra_cols=()):
     for c in cols:
         for i, v in enumerate(fr["cols"][c]["values"]):
             if v is None:
+                nul.add(i)
+    # the only generated factor whose *evaluated* value can be NaN without a null input: inf * 0
+    if any(f.get("fn") == "mul" for t in fc["terms"] for f in t):
+        xs, ys = fr["cols"]["x"]["values"], fr["cols"]["y"]["values"]
+        for i in range(n):
+            if xs[i] is not None and ys[i] is not None and np.isnan(float(xs[i]) * float(ys[i])):
                 nul.add(i)
     return nul
 
@@ -147,14 +154,13 @@ def gen(max_rows=10):
     def strat(draw):
         kind = draw(st.sampled_from(INDEX_KINDS))
         fr = draw(F.frame(min_rows=1, max_rows=max_rows, nulls=True, index_kinds=(kind,)))
-        if draw(st.integers(0, 3)) == 0:
-            # infinite values are not missing values
-            for c in ("x", "y"):
-                if fr["cols"][c]["dtype"] == "float64":
-                    vals = fr["cols"][c]["values"]
-                    pos = draw(st.integers(0, len(vals) - 1))
-                    if vals[pos] is not None:
-                        vals[pos] = draw(st.sampled_from([float("inf"), float("-inf")]))
+        if draw(st.integers(0, 2)) == 0:
+            # infinite values are not missing values (a row holding +inf and -inf, or (-inf, (-inf)**2), sums to NaN)
+            pos = draw(st.integers(0, fr["n"] - 1))
+            signs = draw(st.sampled_from([("-inf", "inf", "-inf"), ("inf", "-inf", "-inf"), ("-inf", "-inf", "inf")]))
+            for c, sg in zip(("x", "y", "z"), signs):
+                if fr["cols"][c]["dtype"] == "float64" and fr["cols"][c]["values"][pos] is not None:
+                    fr["cols"][c]["values"][pos] = float(sg)
         fc = draw(F.formulas(max_terms=3, max_factors=2))
         if draw(st.integers(0, 5)) == 0:
             fc = {"intercept": fc["intercept"], "terms": F.normalize_terms(fc["terms"] + [[{"k": "hashed", "col": "G", "levels": 3}]])}
